@@ -130,6 +130,10 @@ def generate(rng, tier):
             else:
                 calls.append({"k": "str", "v": "".join(rng.choice(CHARS) for _ in range(rng.randrange(1, 5)))})
         threads.append(calls)
+    if rng.random() < 0.15:
+        # some thread READS source text that mentions a gensym-style name with a number near the counter
+        t = rng.randrange(nthreads)
+        threads[t].insert(rng.randrange(len(threads[t]) + 1), {"k": "read", "n": rng.choice([1, 2, 2, 3, 4, 6])})
     if rng.random() < 0.2:
         # two calls (same or different threads) whose labels are distinct strings with the same mangling, or equal
         a, b = rng.choice(ALIAS_PAIRS)
@@ -146,7 +150,8 @@ def generate(rng, tier):
     else:
         sched = {"policy": "rr", "n": rng.choice([1, 2, 3, 5, 7])}
     sched["seed"] = rng.getrandbits(48)
-    return {"threads": threads, "sched": sched, "followup": 2}
+    # afterwards a Hy module whose macros call gensym at compile time is imported from source
+    return {"threads": threads, "sched": sched, "followup": 2, "import_src": rng.random() < 0.12}
 
 
 def _mkarg(spec, sink=None):
@@ -211,6 +216,32 @@ class _Prog:
 _num = re.compile(r"(\d+)$")
 
 
+def _import_from_source():
+    """Imports a fresh Hy module from SOURCE; its macro calls hy.gensym while the module is compiled.  Returns the
+    symbols those calls produced."""
+    import importlib
+    base = os.path.join(os.environ.get("VERIF_SCRATCH") or "/tmp", "c38mods-%d" % os.getpid())
+    os.makedirs(base, exist_ok=True)
+    _state["nimp"] = _state.get("nimp", 0) + 1
+    name = "c38m_%d_%d" % (os.getpid(), _state["nimp"])
+    path = os.path.join(base, name + ".hy")
+    with open(path, "w") as f:
+        f.write('(defmacro c38g [] (setv g (hy.gensym "imp")) `(quote ~g))\n(setv syms [(c38g) (c38g) (hy.gensym "rt")])\n')
+    sys.path.insert(0, base)
+    try:
+        importlib.invalidate_caches()
+        with T.patched_locks():
+            mod = importlib.import_module(name)
+        return list(mod.syms)
+    finally:
+        sys.path.remove(base)
+        sys.modules.pop(name, None)
+        try:
+            os.remove(path)
+        except OSError:
+            pass
+
+
 def execute(desc):
     setup_worker()
     hy = _state["hy"]
@@ -234,6 +265,14 @@ def execute(desc):
     def mk(tid, calls):
         def body():
             for ci, c in enumerate(calls):
+                if c["k"] == "read":
+                    try:
+                        hy.read("_hy_gensym_q_%d" % c["n"])
+                    except T.SimAbort:
+                        raise
+                    except Exception:
+                        pass
+                    continue
                 try:
                     r = hy.gensym(*_mkarg(c, lambda x, ci=ci: results.append((tid, 100 + ci, "ok", x))))
                     results.append((tid, ci, "ok", r))
@@ -262,6 +301,9 @@ def execute(desc):
         if outcome2 == "watchdog":
             raise RuntimeError("harness: watchdog fired in the closing calls")
 
+    imported = []
+    if desc.get("import_src") and not outcome and not outcome2:
+        imported = _import_from_source()
     viols = []
     if outcome == "deadlock":
         viols.append({"clause": "deadlock", "sig": "deadlock",
@@ -273,7 +315,8 @@ def execute(desc):
                       "detail": "a call made after all threads had finished blocks on the lock (left held by an earlier call)"})
     elif outcome2:
         raise RuntimeError("harness: closing calls aborted: " + str(outcome2))
-    oks = [(t, c, r) for (t, c, k, r) in results if k == "ok"] + [("main", i, r) for i, r in enumerate(follow)]
+    oks = [(t, c, r) for (t, c, k, r) in results if k == "ok"] + [("main", i, r) for i, r in enumerate(follow)] + \
+        [("import", i, r) for i, r in enumerate(imported)]
     if outcome == "deadlock" or outcome2 == "deadlock":
         oks = []   # after a deadlock the threads are released without scheduling: what they return means nothing
         results = [r for r in results if False]
@@ -325,7 +368,9 @@ def execute(desc):
                            sched.probes.get("switch_between_counter_load_and_store", 0),
                        "contended_lock_acquire": sched.probes.get("acquire_on_held_lock", 0),
                        "argument_raises": sum(1 for r in results if r[2] == "exc"),
-                       "reentrant_gensym_call": sum(1 for r in results if r[2] == "ok" and r[1] >= 100)},
+                       "reentrant_gensym_call": sum(1 for r in results if r[2] == "ok" and r[1] >= 100),
+                       "source_import_with_compile_time_gensym": int(bool(imported)),
+                       "reader_sees_gensym_style_name": sum(1 for calls in desc["threads"] for c in calls if c["k"] == "read")},
             "probes": dict(sched.probes, context_switches=len(sched.switches),
                            adopted_locks=_state["adopted"]),
             "sigs": sigs, "steps": sched.steps}
@@ -346,6 +391,8 @@ def shrink(desc):
     dec = desc["sched"]["decisions"]
     if desc.get("followup"):
         yield dict(desc, followup=0)
+    if desc.get("import_src"):
+        yield dict(desc, import_src=False)
     # drop a whole thread (renumber decisions)
     if len(th) > 2:
         for i in range(len(th)):
